@@ -1,7 +1,7 @@
 (** C18 — property theorems.  This file contains nothing but statements closed by [exact]. *)
 From Coq Require Import ZArith List Bool Reals.
 From Flocq Require Import Core IEEE754.BinarySingleNaN.
-From KV Require Import Base.IEEE Base.Outcome C18.Model C18.ModelFlac C18.ProofsWav C18.ProofsFlac C18.ProofsSched C18.ProofsConv C18.ProofsFlacConv.
+From KV Require Import Base.IEEE Base.Outcome C18.Model C18.ModelWavExt C18.ModelFlac C18.ProofsWav C18.ProofsWavExt C18.ProofsFlac C18.ProofsSched C18.ProofsConv C18.ProofsFlacConv.
 From KV Require C18.ProofsExamples C18.ProofsFlacExamples.
 Import ListNotations.
 Local Open Scope Z_scope.
@@ -115,6 +115,27 @@ Theorem conv_injective :
   forall (f : sfmt) (x y : Z), exact_fmt f -> sample_ok f x -> sample_ok f y ->
     conv f x = conv f y -> x = y.
 Proof. exact conv_injective_lemma. Qed.
+
+(** WAVE_FORMAT_EXTENSIBLE headers (what ffmpeg / DAWs write for mono above 16 bits, float, or
+    more than two channels): for every spec, every channel mask and every content the reference
+    decoder returns spec, mask and samples; the specified load result is the one of the plain
+    header -- it depends on the channel COUNT only (mono duplicated, stereo, otherwise
+    UnsupportedChannelConfiguration) and is the same for every other mask. *)
+Theorem wav_extensible_mask_irrelevant :
+  forall (sp : spec) (mask : Z) (frames : list (list Z)),
+    spec_ok sp -> 0 <= mask < 2 ^ 32 -> Forall (frame_ok sp) frames -> size_ok_ext sp frames ->
+    decode_ext (encode_ext sp mask frames) = Some (sp, mask, frames) /\
+    ref_load_ext (encode_ext sp mask frames) =
+    match frames with
+    | [] => LOk (s_rate sp) []
+    | _ => match spec_frames sp frames with
+           | Some frs => LOk (s_rate sp) frs
+           | None => LErrChannels
+           end
+    end /\
+    (forall mask', 0 <= mask' < 2 ^ 32 ->
+       ref_load_ext (encode_ext sp mask' frames) = ref_load_ext (encode_ext sp mask frames)).
+Proof. exact wav_ext_lemma. Qed.
 
 (** * A second format: the FLAC subset (STREAMINFO + fixed-blocksize frames, CONSTANT and
     VERBATIM subframes, 8/16/24 bits, 1..8 independent channels, CRC-8 / CRC-16) *)
